@@ -35,6 +35,13 @@ fn table(t: &[(String, LevelDistribution)]) -> J {
 pub fn info(i: &StatisticInfo) -> J {
     json!({"app": table(&i.app_ids), "ctx": table(&i.context_ids), "ecu": table(&i.ecu_ids), "nonverbose": i.contained_non_verbose})
 }
+/// the scan runs over a scripted, fragmenting source (short reads, interruptions), not over a slice
+fn collect_sched(bytes: &[u8], sh: bool, sched: &[crate::reader::Resp]) -> Result<StatisticInfo, String> {
+    let mut rd = DltMessageReader::new(crate::reader::Script::plain(bytes, sched), sh);
+    let mut c = StatisticInfoCollector::default();
+    collect_statistics(&mut rd, &mut c).map_err(|e| format!("{}", e))?;
+    Ok(c.collect())
+}
 fn collect(bytes: &[u8], sh: bool) -> Result<StatisticInfo, String> {
     let mut rd = DltMessageReader::new(bytes, sh);
     let mut c = StatisticInfoCollector::default();
@@ -74,12 +81,12 @@ fn all_merges(parts: &[StatisticInfo]) -> Vec<J> {
     }
     res
 }
-pub fn stats_event(stream: &[u8], sh: bool, bounds: &[usize], c1: usize, c2: usize) -> J {
+pub fn stats_event(stream: &[u8], sh: bool, bounds: &[usize], c1: usize, c2: usize, sched: &[crate::reader::Resp]) -> J {
     let res = catch_unwind(AssertUnwindSafe(|| {
         let mut rec = Recorder { visits: vec![] };
-        let mut rd = DltMessageReader::new(stream, sh);
+        let mut rd = DltMessageReader::new(crate::reader::Script::plain(stream, sched), sh);
         let rc = match collect_statistics(&mut rd, &mut rec) { Ok(()) => "ok", Err(_) => "err" };
-        let whole = collect(stream, sh);
+        let whole = collect_sched(stream, sh, sched);
         // parts at message boundaries: [0, b(c1)), [b(c1), b(c2)), [b(c2), end)
         let cut = |k: usize| if k == 0 { 0 } else { bounds[k - 1] };
         let segs = [(0, cut(c1)), (cut(c1), cut(c2)), (cut(c2), stream.len())];
@@ -88,7 +95,7 @@ pub fn stats_event(stream: &[u8], sh: bool, bounds: &[usize], c1: usize, c2: usi
                "parts": parts.iter().map(info).collect::<Vec<_>>(), "merged": all_merges(&parts)})
     }));
     let res = match res { Ok(j) => j, Err(_) => json!({"v": "panic"}) };
-    json!({"op": "stats", "sh": sh, "stream": proj::bytes(stream), "bounds": bounds, "split": [c1, c2], "res": res})
+    json!({"op": "stats", "sh": sh, "stream": proj::bytes(stream), "bounds": bounds, "split": [c1, c2], "sched": crate::reader::sched_json(sched), "res": res})
 }
 
 /// beyond the listed properties: reader -> parse -> filter -> statistics in one behaviour (./check extras)
@@ -135,7 +142,7 @@ pub fn record(mode: &str, seed: u64, n: usize, out: &mut Out) {
         let sh = r.coin();
         let nm = r.below(7) as usize;
         // ids from a small pool so that messages share ids
-        let pool = ["A", "B", "APP", "", "é", "ECU1", "NONE"];
+        let pool = ["A", "B", "APP", "", "é", "ECU1", "NONE", "APP ", "A ", " ", "a"];   // incl. ids that differ only in trailing blanks / case
         let mut stream = vec![];
         let mut bounds = vec![];
         for _ in 0..nm {
@@ -156,12 +163,14 @@ pub fn record(mode: &str, seed: u64, n: usize, out: &mut Out) {
         let c1 = r.below(nm as u64 + 1) as usize;
         let c2 = c1 + r.below((nm - c1) as u64 + 1) as usize;
         out.calls += 5;
-        out.emit(stats_event(&stream, sh, &bounds, c1, c2), nm >= 2);
+        let sched = crate::reader::random_sched(&mut r);
+        out.emit(stats_event(&stream, sh, &bounds, c1, c2, &sched), nm >= 2);
     }
 }
 pub fn rerun(ev: &J) -> J {
     let bounds: Vec<usize> = ev["bounds"].as_array().unwrap().iter().map(|x| x.as_u64().unwrap() as usize).collect();
-    stats_event(&unproj::bytes(&ev["stream"]), ev["sh"].as_bool().unwrap(), &bounds, ev["split"][0].as_u64().unwrap() as usize, ev["split"][1].as_u64().unwrap() as usize)
+    stats_event(&unproj::bytes(&ev["stream"]), ev["sh"].as_bool().unwrap(), &bounds, ev["split"][0].as_u64().unwrap() as usize, ev["split"][1].as_u64().unwrap() as usize,
+                &crate::reader::sched_of_json(&ev["sched"]))
 }
 
 // ---- direction A: the collector driven directly with headers generated by TLC
